@@ -46,6 +46,7 @@ type Contract struct {
 	Native   bool // native string theory
 	Inline   bool
 	Options  map[string]string
+	GhostSet []*Clause // "name := expr": ghost assignments performed on return (definitional, applied at call sites)
 	File     string
 	Line     int
 	Bound    bool
@@ -84,7 +85,7 @@ type Specs struct {
 var funcHdrRe = regexp.MustCompile(`^func\s+(.+?)\s*\(([^()]*)\)\s*(?:\(([^()]*)\))?\s*$`)
 var labelRe = regexp.MustCompile(`^([A-Za-z_][A-Za-z0-9_]*)\s*:([^:].*)$`)
 
-var clauseKeywords = map[string]bool{"func": true, "property": true, "uses": true, "requires": true, "ensures": true, "modifies": true, "nopanic": true, "checked": true, "trusted": true, "abstract": true, "strings": true, "loop": true, "invariant": true, "inline": true, "option": true, "assume": true,
+var clauseKeywords = map[string]bool{"func": true, "property": true, "uses": true, "requires": true, "ensures": true, "modifies": true, "nopanic": true, "checked": true, "trusted": true, "abstract": true, "ghostset": true, "strings": true, "loop": true, "invariant": true, "inline": true, "option": true, "assume": true,
 	"module": true, "package": true, "pure": true, "ghost": true, "define": true, "axiom": true, "lemma": true, "const": true, "import": true}
 
 func splitList(s string) []string {
@@ -238,6 +239,17 @@ func (s *Specs) loadContractFile(path, pkgPath string) error {
 					cur.Modifies = append(cur.Modifies, splitList(rest)...)
 				}
 			}
+		case "ghostset":
+			i := strings.Index(rest, ":=")
+			if i < 0 {
+				return fmt.Errorf("%s:%d: ghostset NAME := expr", path, l.line)
+			}
+			c, err := parseClause(rest[i+2:], path, l.line)
+			if err != nil {
+				return err
+			}
+			c.Label = strings.TrimSpace(rest[:i])
+			cur.GhostSet = append(cur.GhostSet, c)
 		case "nopanic":
 			cur.NoPanic = true
 		case "checked":
